@@ -18,13 +18,14 @@ func init() {
 				cfg := srvCfg{prop: "C08", nConns: t.Range(2, 4), nDialled: t.Draw(2), msgsPer: [2]int{1, 6}, parkPct: 60, answerPct: 30, bigMsgs: true, doubleConn: true, deferPct: 20}
 				newSrvWorld(e, cfg).run()
 			}},
+			{Name: "sctp-association", Weight: 1, Bubble: true, Run: func(e *Env) { c19RunX(e, false, nil, true) }},
 			{Name: "serve-yield", Weight: 3, Bubble: true, Run: func(e *Env) {
 				t := e.T
 				cfg := srvCfg{prop: "C08", nConns: t.Range(2, 3), nDialled: t.Draw(2), msgsPer: [2]int{1, 5}, parkPct: 50, answerPct: 30, yields: true, cnTasks: true}
 				newSrvWorld(e, cfg).run()
 			}},
 		},
-		MustProbes: []string{"yield-parked", "closenotify-from-task", "back-to-back-accept", "deferred-answer"},
+		MustProbes: []string{"yield-parked", "closenotify-from-task", "back-to-back-accept", "deferred-answer", "sctp-handler-parked"},
 	})
 	register(&Property{
 		ID: "C09", Level: "exploration",
